@@ -107,6 +107,7 @@ func c12ResolvesPointerNum(stmts []ast.Stmt) bool {
 
 func factsC12(r *Repo) []Fact {
 	var out []Fact
+	out = append(out, transC12(r)) // gotrans phase 7: Gen/TransC12.lean (trans_c12.go)
 	sp := r.Pkg("internal/serialization")
 	cp := r.Pkg("compose")
 
